@@ -21,7 +21,8 @@ import (
 // option set by jitdec, optdec and optdec with the fast-map path.
 type C11Case struct {
 	C01Case
-	Opts int `json:"opts"` // bit set over decoder switches, see c11Config
+	Opts  int  `json:"opts"`            // bit set over decoder switches, see c11Config
+	Cross bool `json:"cross,omitempty"` // also ask worker processes started with SONIC_USE_OPTDEC / SONIC_USE_FASTMAP
 }
 
 func init() { register("C11", func() Case { return &C11Case{} }) }
@@ -65,6 +66,7 @@ func c11Config(opts int) sonic.API {
 func drawC11(t *rapid.T) Case {
 	c := &C11Case{C01Case: *drawDecodeCase(t)}
 	c.Opts = rapid.IntRange(0, 127).Draw(t, "opts")
+	c.Cross = rapid.IntRange(0, 9).Draw(t, "cross") == 0
 	// bias to the fast-map shapes: interface{}, map[string]interface{}, []interface{}
 	if rapid.IntRange(0, 3).Draw(t, "efaceroot") == 0 {
 		switch rapid.IntRange(0, 2).Draw(t, "efacekind") {
@@ -167,6 +169,37 @@ func (c *C11Case) Run() (res stat.Result) {
 				return
 			}
 		}
+	}
+	if c.Cross {
+		// hook == environment variable: the stock-configuration transcript of the case must be the same
+		// in a worker started with the real variables and in this process with the hook
+		for _, sel := range []struct {
+			env []string
+			d   decoderSel
+		}{{[]string{"SONIC_USE_OPTDEC=1"}, c11Decoders[1]}, {[]string{"SONIC_USE_OPTDEC=1", "SONIC_USE_FASTMAP=1"}, c11Decoders[2]}} {
+			w, err := getWorker(sel.env...)
+			if err != nil {
+				panic("harness: cannot start worker: " + err.Error())
+			}
+			verifhook.SetDecoder(sel.d.opt, sel.d.fm)
+			local := wireForm(c.C01Case.Transcript())
+			verifhook.SetDecoder(false, false)
+			remote, err := w.ask("C01", &c.C01Case)
+			res.Sub++
+			if err != nil {
+				if strings.Contains(err.Error(), "should always be valid json here") && knownListed("C07-optdec-asraw-panic") {
+					res.Known = append(res.Known, "C07-optdec-asraw-panic")
+					continue
+				}
+				res.Err = fmt.Errorf("worker %v: %v", sel.env, err)
+				return
+			}
+			if remote != local {
+				res.Err = fmt.Errorf("worker started with %v and the in-process hook disagree:\n worker: %s\n hook:   %s", sel.env, clipS(remote), clipS(local))
+				return
+			}
+		}
+		res.Classes = append(res.Classes, "cross-process")
 	}
 	var f typeFeatures
 	featuresOf(c.T, &f)
@@ -277,6 +310,9 @@ func c11Classify(c *C11Case, ty reflect.Type, jitErr, optErr error, jv, ov refle
 		if knownListed("C20-double-unquote-lone-surrogate") && doubleSurrogateRe.Match(c.Doc) && typeHasQuotedString(ty, 0) {
 			return "C20-double-unquote-lone-surrogate"
 		}
+	}
+	if jitErr != nil && optErr == nil && c.Opts&c11UnicodeErrors != 0 && ref.DocStringFlaws(c.Doc).LoneSurr && knownListed("C11-optdec-ignores-unicode-errors") {
+		return "C11-optdec-ignores-unicode-errors"
 	}
 	if jitErr != nil && optErr == nil && knownListed("C11-optdec-minus-zero-unsigned") {
 		for _, n := range numberTokens(c.Doc) {
